@@ -543,3 +543,47 @@ pub fn comp_send(cmd: &str, arg: u64) -> bool {
         None => false,
     })
 }
+
+// ---------------------------------------------------------------------------
+// Determinism of `tracing` across threads
+// ---------------------------------------------------------------------------
+
+/// tracing caches per-callsite "interest" in process-global state, computed
+/// from the dispatchers alive at the moment a callsite is first hit (with a
+/// fast path that consults only the *current thread's* default while a single
+/// dispatcher exists). With per-thread subscribers that makes whether a log
+/// event is emitted on thread A depend on what thread B is doing. Two
+/// permanent dispatchers that are interested in everything (and are nobody's
+/// default) pin every callsite to "enabled": each event is then decided by the
+/// emitting thread's own default subscriber only.
+struct AlwaysInterested;
+
+impl tracing::Subscriber for AlwaysInterested {
+    fn register_callsite(&self, _m: &'static tracing::Metadata<'static>) -> tracing::subscriber::Interest {
+        tracing::subscriber::Interest::always()
+    }
+    fn enabled(&self, _m: &tracing::Metadata<'_>) -> bool {
+        true
+    }
+    fn max_level_hint(&self) -> Option<tracing::level_filters::LevelFilter> {
+        Some(tracing::level_filters::LevelFilter::TRACE)
+    }
+    fn new_span(&self, _s: &tracing::span::Attributes<'_>) -> tracing::span::Id {
+        tracing::span::Id::from_u64(1)
+    }
+    fn record(&self, _s: &tracing::span::Id, _v: &tracing::span::Record<'_>) {}
+    fn record_follows_from(&self, _s: &tracing::span::Id, _f: &tracing::span::Id) {}
+    fn event(&self, _e: &tracing::Event<'_>) {}
+    fn enter(&self, _s: &tracing::span::Id) {}
+    fn exit(&self, _s: &tracing::span::Id) {}
+}
+
+pub fn pin_tracing_interest() {
+    static KEEP: ::std::sync::OnceLock<(tracing::Dispatch, tracing::Dispatch)> = ::std::sync::OnceLock::new();
+    KEEP.get_or_init(|| {
+        (
+            tracing::Dispatch::new(AlwaysInterested),
+            tracing::Dispatch::new(AlwaysInterested),
+        )
+    });
+}
